@@ -239,7 +239,7 @@ def strat_sharded(tier):
     workers = draw(st.sampled_from([1, 2, 2, 3]))
     nb = draw(st.integers(0, 10))
     data = [{'a': [draw(st.integers(0, 9)) for _ in range(draw(st.integers(1, 3)))]} for _ in range(nb)]
-    mode = draw(st.sampled_from(['faults', 'faults', 'faults', 'app_error', 'budget']))
+    mode = draw(st.sampled_from(['faults', 'faults', 'faults', 'faults', 'app_error', 'budget', 'many_timeouts']))
     shape = {'filter': draw(st.booleans()), 'second_agg': draw(st.booleans()), 'chain2': draw(st.sampled_from([False, False, True]))}
     case = {'data': data, 'shape': shape, 'workers': workers, 'shards': draw(st.sampled_from([1, 2, 3, 4, 6])),
             'iterate_batch_size': draw(st.sampled_from([1, 2, 3])), 'prefetch_size': draw(st.integers(1, 3)),
@@ -248,6 +248,12 @@ def strat_sharded(tier):
       shape['poison'] = [draw(st.integers(0, 9))]
       shape['chain2'] = False
       case['plan'] = {}
+    elif mode == 'many_timeouts':
+      # every worker times out on its first initialisations, in total more often than any built-in default budget: with the
+      # default (practically unbounded) retry budget the run still has to complete
+      case['workers'] = max(workers, 2)
+      per = draw(st.sampled_from([29, 30, 31, 35, 50]))      # every worker: 2 x 30 = 60 timeouts in total, or a few more or less
+      case['plan'] = {str(w): {'init_generator': ['deadline_before'] * per} for w in range(case['workers'])}
     elif mode == 'budget':
       # every worker times out on its first calls and the budget is tiny
       case['plan'] = {str(w): {'init_generator': ['deadline_before'] * 6} for w in range(workers)}
